@@ -1,6 +1,7 @@
 package dst
 
 import (
+	"bufio"
 	"fmt"
 	"io"
 	"os"
@@ -88,6 +89,14 @@ func RunOne(t *testing.T, spec RunSpec) (res RunResult) {
 		n := cfg.Voters + cfg.NonVoters + cfg.Spares
 		w := newWorld(ch, cfg, n, spec.Debug)
 		w.stopOnClass = spec.StopOnClass
+		if p := os.Getenv("DST_SCHEDLOG"); p != "" {
+			if f, err := os.Create(p); err == nil {
+				defer f.Close()
+				bw := bufio.NewWriterSize(f, 1<<20)
+				defer bw.Flush()
+				w.schedLog = bw
+			}
+		}
 		sim := w.sim
 		simrt.Active = sim
 		defer func() { simrt.Active = nil }()
